@@ -611,6 +611,18 @@ func GetColumnSetting(column *pg_query.ColumnRef, tableName string, schemaStore 
 	return schema.GetColumnEncryptionSettings(columnName)
 }
 
+// GetComparedParamRef returns the placeholder that the right side of a comparison is: $1, or $1 under a type cast
+// ($1::bytea, CAST($1 AS text)), the way a literal on the right side may be written with a cast
+func GetComparedParamRef(expr *pg_query.Node) *pg_query.ParamRef {
+	if paramRef := expr.GetParamRef(); paramRef != nil {
+		return paramRef
+	}
+	if typeCast := expr.GetTypeCast(); typeCast != nil {
+		return typeCast.GetArg().GetParamRef()
+	}
+	return nil
+}
+
 // ParseSearchQueryPlaceholdersSettings parse encryption settings of statement with placeholders
 func ParseSearchQueryPlaceholdersSettings(statement *pg_query.ParseResult, schemaStore config.TableSchemaStore) map[int]config.ColumnEncryptionSetting {
 	tableExps, err := filterTableExpressions(statement)
@@ -662,10 +674,10 @@ func ParseSearchQueryPlaceholdersSettings(statement *pg_query.ParseResult, schem
 			continue
 		}
 
-		if expr.Rexpr.GetParamRef() != nil {
+		if paramRef := GetComparedParamRef(expr.Rexpr); paramRef != nil {
 			if len(expr.Name) == 1 {
 				if val := expr.Name[0].GetString_(); val != nil && (val.GetSval() == "=" || val.GetSval() == "<>") {
-					placeholderIndex := int(expr.Rexpr.GetParamRef().GetNumber() - 1)
+					placeholderIndex := int(paramRef.GetNumber() - 1)
 					placeHolderSettings[placeholderIndex] = lColumnSetting
 				}
 			}
